@@ -423,3 +423,58 @@ def faithful_detail(label, got, exp):
     kind, kv = parse_kv(label.split(" ++ ")[0])
     rcs = sorted({v for k, v in kv if k == "rc"})
     return f"{kind} rc={','.join(rcs)}" if rcs else kind
+
+
+def suite_size_limit_headers(report, prop="C03"):
+    """the size check at header time, at the top of the range: a fixed header announcing a packet of up to the protocol's
+    maximum (remaining length 268,435,455, i.e. 268,435,460 bytes in all) is legal when no smaller maximum is in force, and
+    is refused exactly when the announced total exceeds the maximum in force.  Only the five header bytes are fed."""
+    def vli(n):
+        out = []
+        while True:
+            b = n % 128
+            n //= 128
+            out.append(b | (0x80 if n else 0))
+            if not n:
+                return bytes(out)
+    reqs, metas = [], []
+    for v in (5, 311):
+        for rl in (127, 128, 16383, 16384, 2097151, 2097152, 268435449, 268435450, 268435451, 268435455):
+            for mx in (0, 200, 16389, 2097157, 268435455, 268435456, 268435459, 268435460):
+                hdr = bytes([0x30]) + vli(rl)
+                reqs.append(f"decode v={v} max={mx} chunks={hexs(hdr)}")
+                metas.append((rl, mx, len(hdr)))
+    # the same inside the engine, where the maximum in force comes from the connect options (none given: no limit)
+    eng = ["session.reset", "eng.new v=5 policy=all | ka=0 cid=x63", "eng.open t=0 deadline=30000", "eng.svc t=0 cap=4096 prefill=0", "eng.wc t=0",
+           "eng.data t=0 b=x2003000000", "eng.data t=1 b=x30ffffff7f"]
+    impl = harness_batch(reqs + eng)
+    model = driver_batch(reqs + eng)
+    corr_ok, mon_ok = True, True
+    for r, (rl, mx, hl), a, b in zip(reqs, metas, impl, model):
+        report.case(r)
+        report.traces_validated += 1
+        if a != b:
+            corr_ok = False
+            report.add_finding(Finding(prop, "corr:size-limit", {"clause": "model-vs-impl", "verb": "decode"}, "size check at header time: implementation and model disagree",
+                                       [r, "# impl:  " + a, "# model: " + b], has_input=False))
+        total = hl + rl
+        want_err = mx != 0 and total > mx
+        got_err = a.startswith("res=err")
+        if want_err != got_err:
+            mon_ok = False
+            report.add_finding(Finding(prop, "mon:size-limit", {"clause": "legal-size-refused" if got_err else "oversize-accepted"},
+                                       f"a fixed header announcing a {total}-byte packet with " + ("no maximum" if mx == 0 else f"maximum packet size {mx}") +
+                                       f" in force is {'refused' if got_err else 'accepted'}", [r, "# impl: " + a]))
+    a, b = impl[-1], model[-1]
+    report.case("|".join(eng))
+    from suites_engine import canon
+    if canon(a) != canon(b):
+        corr_ok = False
+        report.add_finding(Finding(prop, "corr:size-limit", {"clause": "model-vs-impl", "verb": "eng.data"}, "size check inside the engine: implementation and model disagree",
+                                   eng + ["# impl:  " + a[:200], "# model: " + b[:200]], has_input=False))
+    if a.startswith("res=err"):
+        mon_ok = False
+        report.add_finding(Finding(prop, "mon:size-limit", {"clause": "legal-size-refused", "verb": "eng.data"},
+                                   "the client set no maximum packet size, the server starts a PUBLISH of the protocol's maximum size (remaining length 268435455): refused with " + a.split(" ")[0], eng + ["# impl: " + a[:200]]))
+    report.obligation("corr:size-limit", "correspondence", corr_ok, f"{len(reqs) + 1} headers at the boundaries of the length encoding and of the maximum in force")
+    report.obligation("mon:size-limit", "monitor", mon_ok, "refused exactly when the announced total exceeds the maximum in force (none = the protocol's 268,435,460)")
